@@ -1,5 +1,6 @@
 import SJ.Props.C09
 import SJ.Props.TypedSrc
+import SJ.Props.C09Stream
 #print axioms SJ.Props.C09.c09_slice_reader
 #print axioms SJ.Props.C09.c09_str_slice_ignored
 #print axioms SJ.Props.C09.c09_str_slice_value
@@ -12,3 +13,8 @@ import SJ.Props.TypedSrc
 #print axioms SJ.Props.TypedSrc.c09_typed_str_slice
 #print axioms SJ.Props.TypedSrc.c09_typed_all_sources
 #print axioms SJ.Props.TypedSrc.typed_within_input
+#print axioms SJ.Props.C09.c09_stream_offsets
+#print axioms SJ.Props.C09.c09_stream_offsets_from
+#print axioms SJ.Props.C09.c09_raw_sources
+#print axioms SJ.Props.C09.c09_raw_nested_sources
+#print axioms SJ.Props.C09.c09_raw_map_sources
